@@ -492,6 +492,13 @@ CheckerSeeds == {
   FoldSeed(<<"mod", "{", "a", ":=", "[", "1", ",", "1.5", "]", "+", "[", "1", "]", ";", "b", ":=", "a", "[", "1", "]", "+", "1", "}">>, "Rejected"),
   FoldSeed(<<"mod", "{", "a", ":=", "[", "1", "]", "+", "[", "1", ",", "1.5", "]", ";", "b", ":=", "!", "a", "[", "0", "]", "}">>, "Rejected"),
   FoldSeed(<<"mod", "{", "a", ":=", "[", "1", ",", "1.5", "]", "+", "[", "1", "]", ";", "b", ":=", "a", "[", "0", "]", ";", "c", ":=", "a", "+", "[", "2", "]", "}">>, "Accepted"),
+  \* ... the same as two statements (at top level a name is bound to the folded VALUE, whose hidden tag types later uses)
+  FoldSeed(<<"a", ":=", "[", "1", ",", "1.5", "]", "+", "[", "1", "]", ";", "a", "[", "1", "]", "+", "1">>, "Rejected"),
+  FoldSeed(<<"a", ":=", "[", "1", "]", "+", "[", "1", ",", "1.5", "]", ";", "a", "[", "2", "]", "+", "1">>, "Rejected"),
+  FoldSeed(<<"a", ":=", "[", "1", ",", "\"s\"", "]", "+", "[", "1", "]", ";", "1", "<<", "a", "[", "1", "]">>, "Rejected"),
+  FoldSeed(<<"a", ":=", "[", "[", "1", "]", ",", "2", "]", "+", "[", "[", "1", "]", "]", ";", "a", "[", "1", "]", "[", "0", "]">>, "Rejected"),
+  FoldSeed(<<"a", ":=", "[", "1", ",", "1.5", "]", ";", "b", ":=", "a", "+", "[", "1", "]", ";", "!", "b", "[", "1", "]">>, "Rejected"),
+  FoldSeed(<<"a", ":=", "[", "1", ",", "1.5", "]", "[", "0", ":", "1", "]", ";", "a", "[", "0", "]", "+", "1.5">>, "Rejected"),
   FoldSeed(<<"99999999999999999999">>, "Rejected")
 }
 ValidSeeds == {
